@@ -84,6 +84,7 @@ RUNS = (
   + per_e('node_dtor', 'h_node_dtor', ES, lambda e: ['ram_node_dtor.0:%d' % (e + 3 + 2)], cls='shape-complete', defs={'XV_DTOR_BOUNDED': 1, 'XV_OV': 3},
           note='pop_idx, push_idx up to 3 tickets beyond max_idx (three threads hit the full / drained node)')
   + per_e('node_dtor_any', 'h_node_dtor', [2, 5], lambda e: ['ram_node_dtor.0:%d' % (e + 2)], cls='shape-complete', unwind_obligation='ram.node_dtor.owned_only',
+          trace_defs={'XV_DTOR_BOUNDED': 1, 'XV_OV': 3},
           note='pop_idx, push_idx any multiples of step_size below 2^27*step_size; ~node must finish within entries_per_node iterations')
   + per_e('ctor', 'h_ctor', [1, 4], lambda e: ['ram_node_ctor.0:%d' % (e + 1)], cls='shape-complete')
   + per_e('dtor', 'h_dtor', [1, 4], lambda e: ['ram_dtor.0:5'], cls='shape-complete', note='list of 1..3 nodes plus unlisted nodes')
@@ -91,9 +92,9 @@ RUNS = (
           note='loop cut by invariant PUSHSEQ; counters unbounded, entries_per_node is the shape')
   + per_er('pop', 'h_pop', [(1, 1), (2, 0), (2, 1), (4, 2)], lambda e, r: ['ram_pop_seq.%d:%d' % (i, r + 2) for i in range(3)], ER, cls='shape-complete',
            note='loop cut by invariant POPSEQ; inner retry loop unwound pop_retries+1 times')
-  + per_e('push_unwound', 'h_push', [], lambda e: ['ram_push.0:%d' % (e + 3), 'ram_push.1:%d' % (e + 3), 'ram_node_ctor.0:%d' % (e + 1), 'ram_node_dtor.0:%d' % (e + 2)],
+  + per_e('push_unwound', 'h_push', [1], lambda e: ['ram_push.0:%d' % (e + 3), 'ram_push.1:%d' % (e + 3), 'ram_node_ctor.0:%d' % (e + 1), 'ram_node_dtor.0:%d' % (e + 2)],
           es=[1, 2], cls='shape-complete', defs={'XV_UNCUT': 1}, note='cross-check of the cut-loop runs: the original loop, completely unwound')
-  + per_er('pop_unwound', 'h_pop', [], lambda e, r: ['ram_pop.%d:%d' % (i, max(3 * e + 4, r + 2)) for i in range(2)], [(1, 1), (2, 1)], cls='shape-complete',
+  + per_er('pop_unwound', 'h_pop', [(1, 1)], lambda e, r: ['ram_pop.%d:%d' % (i, max(3 * e + 4, r + 2)) for i in range(2)], [(1, 1), (2, 1)], cls='shape-complete',
            defs={'XV_UNCUT': 1}, note='cross-check of the cut-loop runs: the original loop, completely unwound')
   + per_e('try_pop', 'h_try_pop', [4], lambda e: [], es=[4], cls='unbounded')
   + per_e('push_int', 'h_push_int', [2], lambda e: ['ram_node_ctor.0:%d' % (e + 1), 'ram_node_dtor.0:%d' % (e + 2)], mode='INT', cls='shape-complete')
@@ -167,7 +168,8 @@ UNIT = dict(
     'ram.push.fifo': dict(deciding=True, text='every value that was in the queue is in front of the pushed value (node order, then ticket order)'),
     'ram.push.null_rejected': dict(deciding=True, text='push(nullptr) throws invalid_argument, state unchanged, value not released'),
     'ram.push.accepts_once': dict(deciding=True, text='C07: at return the argument object has released the value, the value is in exactly one entry and was not destroyed'),
-    'ram.push.rollback': dict(deciding=True, text='C07 [INT]: an iteration whose CAS to link the new node fails deletes that node exactly once without destroying the value; the value then ends up in exactly one entry'),
+    'ram.push.rollback': dict(deciding=True, text='C07 [INT]: an iteration that does not publish the value leaves everything as it was: a new node whose link CAS failed is deleted exactly once without destroying the value, and the argument object still owns the value (traits::release not called); the value then ends up in exactly one entry'),
+    'ram.push.throw_keeps_value': dict(deciding=True, text='C07 [INT]: when push exits with std::bad_alloc (allocation of a new node failed) the argument object still owns the value - nothing leaked, nothing published'),
     'ram.push.commit': dict(deciding=True, text='[INT] link CAS: on next of the guard-protected node, expected null, desired the node just allocated holding the value; tail CAS: expected = the protected node, desired = the node linked / the next read after the guard; entry CAS: entry of the ticket just drawn, expected null; push returns only after its own successful publishing CAS'),
     'ram.pop.slot': dict(deciding=True, text='pop returns the value stored in the entry of the ticket it drew, pop_idx ends one ticket behind it'),
     'ram.pop.fifo': dict(deciding=True, text='no value that was in the queue is in front of the returned one, all others stay in the queue'),
@@ -182,6 +184,10 @@ UNIT = dict(
     'ram.inv.preserved': dict(deciding=True, text='the node representation invariant holds again after every operation'),
     'ram.node.live_deref': dict(deciding=True, text='every node dereferenced is allocated and not deleted'),
   },
-  loop_obligation={'PUSHSEQ': 'ram.push.slot', 'POPSEQ': 'ram.pop.slot', 'PUSH': 'ram.push.rollback', 'POP': 'ram.pop.invalidate'},
-  canaries=['idx.reached', 'idx.distinct', 'idx.config_rejected'],
+  replays={'ram.node_dtor.owned_only': dict(src='replay_node_dtor.cpp'),
+           'ram.idx.injective': dict(src='replay_idx.cpp'),
+           'ram.push.throw_keeps_value': dict(src='native_push_throw_leak.cpp', no_inputs=True),
+           'ram.push.rollback': dict(src='native_push_throw_leak.cpp', no_inputs=True)},
+  loop_obligation={'PUSHSEQ': 'ram.push.slot', 'POPSEQ': 'ram.pop.slot', 'PUSH': 'ram.push.rollback', 'POP': 'ram.pop.commit'},
+  canaries=['ctor.reached', 'dtor.one_node', 'dtor.three_nodes', 'idx.config_rejected', 'idx.distinct', 'idx.reached', 'node_ctor.reached', 'node_dtor.both_beyond_max', 'node_dtor.consumed', 'node_dtor.owned', 'node_dtor.push_beyond_max', 'pop.empty_after_drained_node', 'pop.empty_after_invalidating', 'pop.empty_untouched', 'pop.fifo_witness', 'pop.value', 'pop.value_after_invalidating', 'pop.value_next_node', 'pop.value_third_node', 'pop_int.empty', 'pop_int.value_by_exchange', 'pop_int.value_by_load', 'push.fifo_witness', 'push.helped_tail', 'push.helped_tail_new_node', 'push.new_node', 'push.null', 'push.slot', 'push.slot_after_invalidated', 'push_int.alloc_failed', 'push_int.linked', 'push_int.stored', 'rollback.helped', 'rollback.lost_race', 'rollback.no_race', 'rollback.second_alloc_failed', 'rollback.second_node', 'rollback.stored_in_winner_node', 'try_pop.false', 'try_pop.true'],
 )
